@@ -209,7 +209,7 @@ def run(eng, rep):
                         "'no longer than the requested length' (in doubt for the extra active-constraint directions built with 2*delta; numerical, noted, not armed)"]
     for fid in GENS:
         rule_generator(eng, rep, fid)
-    rule_coordinate_steps_bounded(eng, rep)
+    rep.guarded(rule_coordinate_steps_bounded, eng, rep)
     # who calls them: every use passes bounds relative to the centre (sl - xopt, su - xopt) -- frames decided under C13/C01
     n = 0
     for fid in GENS:
@@ -235,4 +235,4 @@ def run(eng, rep):
                 rep.bad("C14-3.generators-get-the-box-around-the-centre", eng.where(ci.caller, ci.node), "%s|generator-bounds" % ci.caller.fid, "generator is not given (sl - xopt, su - xopt) with xopt = <model>.xopt() in relative coordinates (got `%s`, `%s`)" % (short(a[2], 30) if len(a) > 2 else "?", short(a[3], 30) if len(a) > 3 else "?"))
     rep.require_count("C14-3.generators-get-the-box-around-the-centre", "generator call sites", n, 5)
     from .mirrorrule import rule_mirror
-    rule_mirror(eng, rep, 'C14-5.lower-and-upper-bound-handling-are-reflections', ['util.get_scale', 'util.random_directions_within_bounds', 'util.random_orthog_directions_within_bounds', 'controller.Controller.initialise_coordinate_directions'])
+    rep.guarded(rule_mirror, eng, rep, 'C14-5.lower-and-upper-bound-handling-are-reflections', ['util.get_scale', 'util.random_directions_within_bounds', 'util.random_orthog_directions_within_bounds', 'controller.Controller.initialise_coordinate_directions'])
